@@ -299,11 +299,20 @@ def sort_key_values(cfg: dict, flt: dict, yo: np.ndarray, yc: np.ndarray | None)
     return np.nan_to_num(yc[:, int(flt["options"]["sort"])])
 
 
+def near_ties(values) -> bool:
+    """Ranking ambiguous: two values closer than 1e-9 without being equal.  Exactly equal values are not ambiguous:
+    the filters rank them by realization index (stable sort), with or without failed realizations."""
+    v = np.sort(np.asarray(values, float))
+    if v.size < 2:
+        return False
+    d = np.diff(v)
+    return bool(np.any((d > 0) & (d < 1e-9)))
+
+
 def ref_filter_weights(cfg, flt, yo, yc, failed, cw, tm):
     """Model weights of one filter; returns (weights | None when nothing succeeded, ambiguous)."""
     vals = sort_key_values(cfg, flt, yo, yc)
-    succ = np.sort(vals[~failed])
-    ties = succ.size > 1 and np.min(np.diff(succ)) < 1e-9
+    ties = near_ties(vals[~failed])
     if flt["method"].startswith("sort"):
         return model.sort_window_weights(vals, failed, int(flt["options"]["first"]), int(flt["options"]["last"]), cw), ties
     if (~failed).sum() == 0:
@@ -322,8 +331,7 @@ def ref_filter_weights(cfg, flt, yo, yc, failed, cw, tm):
             bad = -vals  # lower-bounded: the smallest values are the worst (ranked on the values themselves)
         else:
             bad = vals  # upper-bounded or unbounded: the largest values are the worst
-        s2 = np.sort(bad[~failed])
-        ties = s2.size > 1 and np.min(np.diff(s2)) < 1e-9
+        ties = near_ties(bad[~failed])
     w, _ = model.cvar_weights_exact(bad, failed, p)
     return np.array([float(x) for x in w]), ties
 
